@@ -858,6 +858,15 @@ class Run:
                     el = rnd.randint(1, min(3, n))
                     roots = [(r, Fr(0), 1, "elevated") for r in rnd.sample(inside, min(n - el, 5))]
                     out.append(build(roots, elevate=el))
+            if n >= 2:
+                for _ in range(reps):
+                    # both at once: roots at exactly 1 AND a degree-elevated presentation (sigma-roots at -1 are dropped
+                    # and roots at 1 are appended by two different counts)
+                    unit = rnd.randint(1, min(2, n - 1))
+                    el = rnd.randint(1, min(2, n - unit))
+                    roots = [(r, Fr(0), 1, "real-out" if r in outside else "real-in")
+                             for r in rnd.sample(inside + outside[:4], min(n - unit - el, 4))]
+                    out.append(build(roots, elevate=el, unit=unit))
         return out
 
     def sec_roots(self, cases=None):
@@ -926,6 +935,9 @@ class Run:
                 if ones < unit_mult:
                     res.failure("root-missed:unit", "bezier_roots(%s): %d roots at exactly 1 expected, %d returned" %
                                 (cs["bern"], unit_mult, ones), cs)
+                if ones > unit_mult and cs.get("exact", False) and not any(float(re) == 1.0 and im == 0 for (re, im, m, cl) in roots if cl != "unit"):
+                    res.failure("root-multiplicity:unit", "bezier_roots(%s): the root 1 has multiplicity %d (trailing zero Bernstein "
+                                "coefficients) but is returned %d times" % (cs["bern"], unit_mult, ones), cs)
                 # (2) every planted root is returned, with multiplicity
                 expanded = []
                 for (re, im, m, cl) in roots:
